@@ -17,6 +17,7 @@ import Driver.HistOps
 import Driver.FileOps
 import Driver.PixOps
 import Driver.CompactOps
+import Driver.StageOps
 import FastQr.Model.Version
 import FastQr.Model.Classify
 import FastQr.Spec.Capacity
@@ -87,6 +88,10 @@ def handle (prop : String) (line : String) : String :=
       | "pushbits" => opPushBits args res
       | "threads" => opThreads args res
       | "wasmqr" => opWasmQr args res
+      | "uline" => opULine args res
+      | "usq" => opUSq args res
+      | "ustructure" => opUStructure args res
+      | "uplace" => opUPlace args res
       | _ => { spec := some s!"unknown-op:{op}" }
     v.render
 
